@@ -11,7 +11,10 @@ package test
 
 //@ func (conn *bridgeConn) Read(b []byte) (n int, err error)
 //@   requires conn.readDeadline != nil && conn.readCh != nil
+//@   requires [noalias] forall k mathint :: {msg(conn.readCh, k)} base(msg(conn.readCh, k)) != base(b)
 //@   modifies b[*], rdExpired, rdLast
+//@   ensures [msg] err == nil ==> lastrecv() >= old(recvd(conn.readCh)) && n == min(len(b), len(msg(conn.readCh, lastrecv()))) &&
+//@            (forall i mathint :: {b[i]} 0 <= i && i < n ==> b[i] == msg(conn.readCh, lastrecv())[i])
 //@   ghost after Done#1: rdExpired = closed(result$); rdLast = result$
 //@   ghost after Done#2: rdLast = result$
 //@   ensures [deadline.persist] rdExpired ==> n == 0 && typeis(err, *netError)
@@ -25,6 +28,8 @@ package test
 
 // ---- Bridge (C18): queues and reorder stacks are sequences of messages (slices); reference semantics per operation.
 //@ monitor Bridge mutex: queue0to1, queue1to0, dropNWrites0, dropNWrites1, reorderNWrites0, reorderNWrites1, stack0, stack1, filterCB0, filterCB1, err
+//@ invariant (br *Bridge) ends: br.conn0 != nil && br.conn1 != nil && br.conn0.readCh != nil && br.conn1.readCh != nil && br.conn0.readCh != br.conn1.readCh && br.conn0 != br.conn1 &&
+//@      (!br.conn0.closed ==> !closed(br.conn0.readCh)) && (!br.conn1.closed ==> !closed(br.conn1.readCh))
 
 //@ func inverse(s [][]byte) (err error)
 //@   modifies s[*]
@@ -79,5 +84,47 @@ package test
 //@            (forall k mathint :: {br.queue1to0[k]} 0 <= k && k < atlock(len(br.queue1to0)) ==> br.queue1to0[k] == atlock(br.queue1to0[k]))))
 //@   ensures [d1.other] !br.conn0.closing && !br.conn1.closing && fromID != 0 ==> sameSeq(br.queue0to1, atlock(br.queue0to1)) && sameSeq(br.stack0, atlock(br.stack0))
 
-//@ property C18: inverse, drop, Bridge.Push
+// scripted impairments: counters are set as given; Reorder mirrors the queue; Drop removes n messages from offset
+//@ func (br *Bridge) DropNextNWrites(fromID int, n int)
+//@   ensures [set] (fromID == 0 ==> br.dropNWrites0 == n && br.dropNWrites1 == atlock(br.dropNWrites1)) && (fromID != 0 ==> br.dropNWrites1 == n && br.dropNWrites0 == atlock(br.dropNWrites0))
+//@   ensures [rest] sameSeq(br.queue0to1, atlock(br.queue0to1)) && sameSeq(br.queue1to0, atlock(br.queue1to0)) && sameSeq(br.stack0, atlock(br.stack0)) && sameSeq(br.stack1, atlock(br.stack1)) &&
+//@            br.reorderNWrites0 == atlock(br.reorderNWrites0) && br.reorderNWrites1 == atlock(br.reorderNWrites1)
+//@ func (br *Bridge) ReorderNextNWrites(fromID int, n int)
+//@   ensures [set] (fromID == 0 ==> br.reorderNWrites0 == n && br.reorderNWrites1 == atlock(br.reorderNWrites1)) && (fromID != 0 ==> br.reorderNWrites1 == n && br.reorderNWrites0 == atlock(br.reorderNWrites0))
+//@   ensures [rest] sameSeq(br.queue0to1, atlock(br.queue0to1)) && sameSeq(br.queue1to0, atlock(br.queue1to0)) && sameSeq(br.stack0, atlock(br.stack0)) && sameSeq(br.stack1, atlock(br.stack1)) &&
+//@            br.dropNWrites0 == atlock(br.dropNWrites0) && br.dropNWrites1 == atlock(br.dropNWrites1)
+//@ func (br *Bridge) Reorder(fromID int) (err error)
+//@   ensures [q0] fromID == 0 ==> len(br.queue0to1) == atlock(len(br.queue0to1)) && sameSeq(br.queue1to0, atlock(br.queue1to0)) &&
+//@            (forall k mathint :: {br.queue0to1[k]} 0 <= k && k < len(br.queue0to1) ==> br.queue0to1[k] == atlock(br.queue0to1[ite(len(br.queue0to1) >= 2, len(br.queue0to1) - 1 - k, k)]))
+//@   ensures [q1] fromID != 0 ==> len(br.queue1to0) == atlock(len(br.queue1to0)) && sameSeq(br.queue0to1, atlock(br.queue0to1)) &&
+//@            (forall k mathint :: {br.queue1to0[k]} 0 <= k && k < len(br.queue1to0) ==> br.queue1to0[k] == atlock(br.queue1to0[ite(len(br.queue1to0) >= 2, len(br.queue1to0) - 1 - k, k)]))
+//@ func (br *Bridge) Drop(fromID int, offset int, n int)
+//@   requires 0 <= offset && n >= 0 && n < 4611686018427387904
+//@   requires [inrange] true
+//@   ensures [q0] fromID == 0 && offset <= atlock(len(br.queue0to1)) ==> sameSeq(br.queue1to0, atlock(br.queue1to0)) &&
+//@            len(br.queue0to1) == atlock(len(br.queue0to1)) - min(n, atlock(len(br.queue0to1)) - offset) &&
+//@            (forall k mathint :: {br.queue0to1[k]} 0 <= k && k < offset ==> br.queue0to1[k] == atlock(br.queue0to1[k])) &&
+//@            (forall k mathint :: {br.queue0to1[k]} offset <= k && k < len(br.queue0to1) ==> br.queue0to1[k] == atlock(br.queue0to1[k + min(n, len(br.queue0to1) - offset)]))
+
+//@ func (conn *bridgeConn) Write(b []byte) (n int, err error)
+//@   requires conn.writeDeadline != nil && conn.br != nil && conn.br.conn0 != nil && conn.br.conn1 != nil
+//@   modifies randLast
+//@   ensures [n] err == nil ==> n == len(b)
+//@   ensures [frame] forall i mathint :: {b[i]} 0 <= i && i < len(b) ==> b[i] == old(b[i])
+
+// Tick hands at most one message per direction, the head of the queue, to the reader of the other endpoint
+//@ func (br *Bridge) Tick() (n int)
+//@   modifies br.conn0.closed, br.conn1.closed
+//@   ensures [either] (len(br.queue0to1) == atlock(len(br.queue0to1)) || len(br.queue0to1) == atlock(len(br.queue0to1)) - 1) &&
+//@            (len(br.queue1to0) == atlock(len(br.queue1to0)) || len(br.queue1to0) == atlock(len(br.queue1to0)) - 1)
+//@   ensures [keep01] len(br.queue0to1) == atlock(len(br.queue0to1)) ==> sameSeq(br.queue0to1, atlock(br.queue0to1))
+//@   ensures [fwd01] len(br.queue0to1) == atlock(len(br.queue0to1)) - 1 ==> msg(br.conn1.readCh, lastsendon(br.conn1.readCh)) == atlock(br.queue0to1[0]) &&
+//@            (forall k mathint :: {br.queue0to1[k]} 0 <= k && k < len(br.queue0to1) ==> br.queue0to1[k] == atlock(br.queue0to1[k + 1]))
+//@   ensures [keep10] len(br.queue1to0) == atlock(len(br.queue1to0)) ==> sameSeq(br.queue1to0, atlock(br.queue1to0))
+//@   ensures [fwd10] len(br.queue1to0) == atlock(len(br.queue1to0)) - 1 ==> msg(br.conn0.readCh, lastsendon(br.conn0.readCh)) == atlock(br.queue1to0[0]) &&
+//@            (forall k mathint :: {br.queue1to0[k]} 0 <= k && k < len(br.queue1to0) ==> br.queue1to0[k] == atlock(br.queue1to0[k + 1]))
+//@   ensures [count] n == (atlock(len(br.queue0to1)) - len(br.queue0to1)) + (atlock(len(br.queue1to0)) - len(br.queue1to0))
+//@   ensures [rest] sameSeq(br.stack0, atlock(br.stack0)) && sameSeq(br.stack1, atlock(br.stack1))
+
+//@ property C18: inverse, drop, Bridge.Tick, Bridge.Push, Bridge.DropNextNWrites, Bridge.ReorderNextNWrites, Bridge.Reorder, bridgeConn.Write
 //@ property C10: bridgeConn.Read, bridgeConn.SetReadDeadline
